@@ -550,12 +550,9 @@ pub fn eval(b: &Base, layer: Layer, m: &Mutant, r: &mut Report) {
             replay(),
         );
     }
-    if out.is_ok() && layer == Layer::Core && p.is_local() && p != P::V2L && trace.len() != 1 {
-        r.violation(
-            format!("C03 hook-trace-on-accept {} n={}", tag, trace.len()),
-            format!("{}: an accepted local decrypt must run the decryption primitive exactly once, trace was {:?}", what, trace),
-            replay(),
-        );
+    if out.is_ok() && layer == Layer::Core && p.is_local() && p != P::V2L {
+        // observation only: the property constrains rejected calls, not how an accepted one decrypts
+        r.see("keystream events during ACCEPTED local decrypts", &format!("{} n={}", p.name(), trace.len()));
     }
     if r.samples.len() < 8 && r.evaluations % 1013 == 7 {
         r.sample(json!({"entry": tag, "operator": m.op, "region": m.region, "authentic": util::clip(&b.token, 60), "mutant": util::clip(&m.token, 60), "outcome": out.brief(), "hook_trace": trace}));
